@@ -37,6 +37,11 @@ OtherSubs ==
        SubR("sdup", S64, << Par("p", S32), Par("q", S8) >>, << Return(Bin("+", Bin("*", CastE(S64, Pp), K(256)), Qq)) >>),
        SubR("sdup3", U64, << Par("p", U8), Par("q", S32), Par("r", U16) >>,
             << Return(Bin("+", Bin("+", Bin("*", CastE(U64, Pp), K(65536)), Bin("*", CastE(U64, CastE(U32, Qq)), K(16777216))), Var("r"))) >>),
+       \* the returned expression is a comparison / logical value (converted to the return type as 0 / 1)
+       SubR("sgt", S32, << Par("p", S32), Par("q", S32) >>, << Return(Bin(">", Pp, Qq)) >>),
+       SubR("snot", U8, << Par("p", S64) >>, << Return(Un("!", Pp)) >>),
+       SubR("sland", S64, << Par("p", S32), Par("q", S32) >>, << Return(Bin("&&", Bin("!=", Pp, K(0)), Bin("<", Qq, K(0)))) >>),
+       SubR("sselb", S32, << Par("p", S32), Par("q", S32) >>, << Return(Bin("+", Call("sgt", <<Pp, Qq>>), Bin("*", Call("sgt", <<Qq, Pp>>), K(2)))) >>),
        SubR("sdeep2", S32, << Par("q", S32), Par("p", S32) >>, << Return(Bin("+", Call("spost", <<Qq>>), Call("stwice", <<Pp>>))) >>) >>
 Subs == IdSubs \o OtherSubs
 
@@ -48,6 +53,7 @@ C1(f, e) == Call(f, <<e>>)
 Calls == << C1("searly", A), C1("sloc", A), C1("sloop", CastE(U32, A)), C1("snest", X), Call("smax", <<A, X>>),
             Call("snarrow", <<CastE(S64, A), CastE(U16, X)>>), C1("spost", X), C1("clz32", CastE(U32, X)), C1("fbrev", CastE(U32, A)),
             C1("clo32", CastE(U32, A)), C1("revbit32", CastE(U32, X)), C1("stwice", A), C1("sdeep", X), Call("sdeep2", <<A, X>>),
+            Call("sgt", <<A, X>>), C1("snot", CastE(S64, A)), Call("sland", <<A, X>>), Call("sselb", <<A, X>>),
             Call("sdup", <<A, A>>), Call("sdup", <<X, A>>), Call("sdup3", <<X, X, X>>), Call("sdup3", <<A, X, A>>) >>
 NC == Len(Calls)
 
